@@ -218,4 +218,7 @@ from . import _compose, pf_parts, pm_parts  # noqa: E402
 
 PARTS = [_compose.Part("nodes", run, replay, theorems=THEOREMS, modules=LEAN_MODULES, known=globals().get("KNOWN"))]
 PARTS += pf_parts.parts("C04") + pm_parts.parts("C04")
+from . import refine_parts, e2en_parts  # noqa: E402
+PARTS.append(_compose.theorem_part("refine", refine_parts.THEOREMS_BY_PROP.get("C04", []), refine_parts.LEAN_MODULES))
+PARTS.append(_compose.theorem_part("e2en", e2en_parts.THEOREMS_BY_PROP.get("C04", []), e2en_parts.LEAN_MODULES))
 _compose.assemble(globals(), PARTS, RULE, EXPLANATION, ASSUMPTIONS)
